@@ -145,13 +145,15 @@ def check_vector(v):
             if g3["forbes"][1] != 0:
                 cmp("forbes[three contigs]", g3["forbes"][0] / g3["forbes"][1], outcome(lambda: float(forbes(sizes3, A3, B))), a_disjoint=v["apre"])
             # the same sets handed over as per-contig lookups (name -> table) whose keys come in another order than the contigs
-            def look(t):
+            def look(t, order):
                 names = t.chromosome.tolist()
-                return {nm: t[np.array([c == nm for c in names], dtype=bool)] if len(t) else t for nm in ("chr3", "chr1", "chr2")}
-            if g3["jaccard"][1] != 0:
-                cmp("jaccard[three contigs, lookups]", g3["jaccard"][0] / g3["jaccard"][1], outcome(lambda: float(jaccard(sizes3, look(A3), look(B)))), a_disjoint=v["apre"])
-            if g3["forbes"][1] != 0:
-                cmp("forbes[three contigs, lookups]", g3["forbes"][0] / g3["forbes"][1], outcome(lambda: float(forbes(sizes3, look(A3), look(B)))), a_disjoint=v["apre"])
+                return {nm: t[np.array([c == nm for c in names], dtype=bool)] if len(t) else t for nm in order}
+            for oa, ob in ((("chr3", "chr1", "chr2"), ("chr1", "chr2", "chr3")), (("chr2", "chr1", "chr3"), ("chr3", "chr2", "chr1")), (("chr1", "chr2", "chr3"), None)):
+                LA, LB = look(A3, oa), (look(B, ob) if ob else B)
+                if g3["jaccard"][1] != 0:
+                    cmp("jaccard[three contigs, lookups]", g3["jaccard"][0] / g3["jaccard"][1], outcome(lambda: float(jaccard(sizes3, LA, LB))), a_disjoint=v["apre"], keys=[oa, ob])
+                if g3["forbes"][1] != 0:
+                    cmp("forbes[three contigs, lookups]", g3["forbes"][0] / g3["forbes"][1], outcome(lambda: float(forbes(sizes3, LA, LB))), a_disjoint=v["apre"], keys=[oa, ob])
         if v["apre"]:
             cmp("count_overlap", v["overlap"], outcome(lambda: int(count_overlap(A, B))))
             if a:
